@@ -319,24 +319,24 @@ impl Driver {
                 d.sets.dedup();
                 d.n = d.sets.len();
             }
-            "adversarial" => d.n = q(1500, 30000),
-            "near-miss" => d.n = q(1500, 25000),
-            "classes" => d.n = q(1200, 20000),
-            "icase-words" => d.n = q(1500, 25000),
+            "adversarial" => d.n = q(1500, 9000),
+            "near-miss" => d.n = q(1500, 9000),
+            "classes" => d.n = q(1200, 6000),
+            "icase-words" => d.n = q(1500, 9000),
             "icase-sweep" => d.n = N_SCALARS,
             "class-sweep" => d.n = N_SCALARS + (N_SCALARS - 5) / 16,
             "escape-sweep" => d.n = N_SCALARS,
-            "repeats" => d.n = q(1500, 25000),
-            "thresholds" => d.n = q(500, 12000),
-            "presentation" => d.n = q(1200, 20000),
-            "anchors" => d.n = q(1500, 25000),
-            "escape-words" => d.n = q(1200, 20000),
-            "color" => d.n = q(1200, 20000),
-            "lattice" => d.n = q(300, 5000),
-            "orders" => d.n = q(1200, 15000),
-            "stages" => d.n = q(800, 20000),
-            "fallbacks" => d.n = q(500, 12000),
-            "big" => d.n = q(40, 600),
+            "repeats" => d.n = q(1500, 9000),
+            "thresholds" => d.n = q(500, 3000),
+            "presentation" => d.n = q(1200, 6000),
+            "anchors" => d.n = q(1500, 9000),
+            "escape-words" => d.n = q(1200, 6000),
+            "color" => d.n = q(1200, 6000),
+            "lattice" => d.n = q(300, 2000),
+            "orders" => d.n = q(1200, 6000),
+            "stages" => d.n = q(800, 5000),
+            "fallbacks" => d.n = q(500, 3000),
+            "big" => d.n = q(40, 240),
             // all words of length <= 4 (thorough: 5) over one representative of every grapheme-break / category kind
             "segments" => d.n = (1..=(if thorough { 5 } else { 4 })).map(|k| SEG_CHARS.len().pow(k)).sum(),
             other => panic!("unknown driver {}", other),
